@@ -128,12 +128,12 @@ let read_history path : hist =
   close_in ic;
   let c = match !cfgl with
     | g :: bufcap :: errfull :: limiter :: flush :: capint :: audit :: maxop :: pause :: maxconc :: busy ->
-        let bfd, bau, bcp = (match busy with [a; b; d] -> (a, b, d) | [a; b] -> (a, b, 0) | [] -> (0, 0, 0) | _ -> failwith "cfg line") in
+        let bfd, bau, bcp, rp = (match busy with [a; b; d; e] -> (a, b, d, e) | [a; b; d] -> (a, b, d, 0) | [a; b] -> (a, b, 0, 0) | [] -> (0, 0, 0, 0) | _ -> failwith "cfg line") in
         { c_gen = (if g = 1 then V1 else V2); c_bufcap = nat_of_int bufcap; c_errfull = errfull <> 0;
           c_limiter = limiter <> 0; c_flush = z_of_int flush; c_capint = z_of_int capint;
           c_audit = z_of_int audit; c_maxop = z_of_int maxop; c_pause = z_of_int pause;
           c_maxconc = nat_of_int maxconc; c_watchers = List.rev !watchers;
-          c_busy_fd = z_of_int bfd; c_busy_audit = z_of_int bau; c_busy_cap = z_of_int bcp }
+          c_busy_fd = z_of_int bfd; c_busy_audit = z_of_int bau; c_busy_cap = z_of_int bcp; c_react_pause = nat_of_int rp }
     | _ -> failwith "cfg line" in
   { name = !name; cfg = c; segs = List.rev !segs; raw_lines = !nlines }
 
